@@ -19,7 +19,8 @@ PROP = "C25"
 RULE = ("limit cases (server 70% / client 30%; 72% valid messages with limits placed around their measured sizes, 28% unterminated/oversized probes), "
         "each under 4 (quick) / 6 (thorough) segmentations; non-trivial = a finite limit is configured and the stream contains a message that is over, "
         "at, or within one line-terminator band of that limit, or is a probe; distinct = hash of (options, stream)")
-SIZES = dict(quick=1000, thorough=40000)
+SIZES = dict(quick=800, thorough=40000)
+BATCH = 2000
 
 REG = dict(category="exploration",
            text="Runtime monitor: generated messages and unterminated/oversized probes are played against a real evhttp server / evhttp_connection "
@@ -28,20 +29,22 @@ REG = dict(category="exploration",
                 "callback + sampling at every wait) and the bytes drained by lingering close are checked. Held-on-observed, not a proof.",
            note="CALIBRATED: the header-section size is taken as the sum of line lengths without terminators (what the tree counts; the API is "
                 "undocumented), messages between that measure and the on-the-wire size may be accepted or rejected; buffering bound = both limits + "
-                "one 4096-byte read + 256; sizes come from lib/ref/http9112.py",
+                "one 16384-byte bufferevent read + 256; sizes come from lib/ref/http9112.py",
            technique="limit-boundary workload + exact buffer high-water monitor + reference-measured sizes + segmentation metamorphic check, sanitizers live")
 
 
-def build_cases(tier, seed):
+def iter_cases(tier, seed):
     rng = random.Random((seed << 8) ^ 0xC25)
     thorough = (tier == "thorough")
-    cases = []
     for idx in range(SIZES[tier]):
         g = gen.gen_limit_case(rng, ho.measure, thorough)
         c = ho.Case(idx, g["mode"], g["data"], g["opts"], end=g["end"], requests=g["requests"], tags=g["tags"], cfg=g["cfg"])
         c.segs = gen.segmentations_big(rng, c.data, thorough=thorough)
-        cases.append(c)
-    return cases
+        yield c
+
+
+def build_cases(tier, seed):
+    return list(iter_cases(tier, seed))
 
 
 def judge_case(c, res):
@@ -64,7 +67,7 @@ def judge_case(c, res):
                 viol.append((k, "[segmentation %s] %s" % (name, t)))
     if not band:
         if c.mode == 'S':
-            ho.judge_metamorphic(PROP, c, ho.server_signature, viol, res)
+            ho.judge_metamorphic(PROP, c, ho.server_signature_limits, viol, res)
         else:
             ho.judge_metamorphic(PROP, c, lambda r: ho.client_signature(r, len(c.requests)), viol, res)
     else:
@@ -74,47 +77,37 @@ def judge_case(c, res):
     return viol
 
 
+def account(c, res):
+    if c.cfg.get("mh", -1) >= 0 or c.cfg.get("mb", -1) >= 0:
+        res.hashes.add(ho.stream_hash(c))
+    for t in set(c.tags):
+        res.add_stat("gen_" + t.replace(":", "_"), 1)
+    r1 = c.results.get('one')
+    res.extra["max_input_high_water"] = max(res.extra.get("max_input_high_water", 0), max(r.get("hwx", 0) for r in c.results.values()))
+    if c.mode == 'S':
+        res.add_stat("requests_delivered", len(r1["reqs"]))
+        for s in ho.out_statuses(r1["out"]):
+            res.add_stat("status_%s" % (s if s in (100, 200, 400, 413) else "other"), 1)
+        res.add_stat("server_closed_before_fin", 1 if r1["closed_before_fin"] else 0)
+    else:
+        for o in ho.client_observed(r1, len(c.requests)):
+            res.add_stat("client_request_" + o["kind"], 1)
+    res.add_stat("bytes_consumed_from_input", r1.get("del", 0))
+    res.add_stat("cases_" + ("server" if c.mode == 'S' else "client"), 1)
+    res.add_stat("segmentations_run", len(c.results))
+    if len(res.samples) < 5 and (c.idx % 173 == 3 or c.idx < 2):
+        res.samples.append(dict(mode=c.mode, opts=c.opts, stream=ho.short(c.data, 200), end=c.end, hw=[(n, c.results[n].get("hwx")) for n, _ in c.segs],
+                                delivered=(len(r1["reqs"]) if c.mode == 'S' else [o["kind"] for o in ho.client_observed(r1, len(c.requests))])))
+
+
 def run(tier, seed):
     res = vlib.Result(PROP)
     vlib.build(ho.FLAVOR, [ho.HARNESS])
-    cases = build_cases(tier, seed)
-    nexec = ho.run_cases(res, PROP, cases, tier)
-    res.evaluations = nexec
-    maxhw = 0
-    for c in cases:
-        if len(c.results) != len(c.segs):
-            res.add_stat("cases_without_trace", len(c.segs) - len(c.results))
-            continue
-        if c.cfg.get("mh", -1) >= 0 or c.cfg.get("mb", -1) >= 0:
-            res.hashes.add(ho.stream_hash(c))
-        for t in set(c.tags):
-            res.add_stat("gen_" + t.replace(":", "_"), 1)
-        r1 = c.results.get('one')
-        maxhw = max(maxhw, max(r.get("hwx", 0) for r in c.results.values()))
-        if c.mode == 'S':
-            res.add_stat("requests_delivered", len(r1["reqs"]))
-            for s in ho.out_statuses(r1["out"]):
-                res.add_stat("status_%s" % (s if s in (100, 200, 400, 413) else "other"), 1)
-            res.add_stat("server_closed_before_fin", 1 if r1["closed_before_fin"] else 0)
-        else:
-            for o in ho.client_observed(r1, len(c.requests)):
-                res.add_stat("client_request_" + o["kind"], 1)
-        res.add_stat("bytes_consumed_from_input", r1.get("del", 0))
-        res.add_stat("cases_" + ("server" if c.mode == 'S' else "client"), 1)
-        res.add_stat("segmentations_run", len(c.results))
-        if len(res.samples) < 5 and (c.idx % 173 == 3 or c.idx < 2):
-            res.samples.append(dict(mode=c.mode, opts=c.opts, stream=ho.short(c.data, 200), end=c.end, hw=[(n, c.results[n].get("hwx")) for n, _ in c.segs],
-                                    delivered=(len(r1["reqs"]) if c.mode == 'S' else [o["kind"] for o in ho.client_observed(r1, len(c.requests))])))
-        for k, t in judge_case(c, res):
-            res.add_viol(k, t, ho.case_replay(PROP, c))
-    res.extra["max_input_high_water"] = maxhw
-    missing = res.stats.get("cases_without_trace", 0)
-    if missing:
-        res.inconclusive.append("%d executions produced no trace" % missing)
+    ho.run_batched(res, PROP, iter_cases(tier, seed), tier, BATCH, judge_case, account)
     return vlib.finish(res, tier, seed, RULE,
                        required=["cases_server", "cases_client", "over_limit_messages", "within_limit_delivered", "band_messages", "status_413", "status_400",
                                  "gen_probe-server", "gen_probe-client", "gen_ling1", "bytes_consumed_from_input", "client_request_failed", "client_request_delivered"],
-                       assumptions=["header size measure calibrated to the tree (line contents without terminators)", "one read quantum = 4096 bytes"])
+                       assumptions=["header size measure calibrated to the tree (line contents without terminators)", "one read quantum = 16384 bytes (bufferevent max_single_read)"])
 
 
 def replay(info):
